@@ -166,6 +166,9 @@ def oracle_multi(*fns, orders=('r1', 'r2', 'r3'), shear=False, count=None):
             objs += ctx.objects(o, count=count, shear=shear)
         for fn in fns:
             fn(objs, st)
+        # every property quantifies over objects however they were reached: a reused object must equal a fresh one
+        hobjs = [o_ for o_ in objs if o_[0].get('kwargs', {}).get('order') in orders][:: max(1, len(objs) // (6 if ctx.thorough else 3))]
+        oracles.oracle_history(hobjs, st, seed=ctx.seed)
         return st.out()
     run.fns = fns
     return run
@@ -249,7 +252,7 @@ PROPS['C10'] = dict(
 
 PROPS['C11'] = dict(
     lean=['QscProofs.C11', 'QscProofs.C01'], theorems=thms('QscProofs.C11') + ['C01.r3_J_avg', 'C01.r2_J_R1'], gen=['Mercier', 'R2', 'R3'],
-    corr=corr_generated(['Mercier'], orders=('r2', 'r3')), oracle=oracle_multi(oracles.oracle_C11, oracles.oracle_C11_geometric, orders=('r2', 'r3')),
+    corr=corr_generated(['Mercier'], orders=('r2', 'r3')), oracle=oracle_multi(oracles.oracle_C11, oracles.oracle_C11_geometric, oracles.oracle_C01, orders=('r2', 'r3')),
     rule=RULE, partial=[CONTINUUM, "the geometric clause (d2_volume_d_psi2 = V'') is the chain [J]_2 = 0, <[J]_3> = 0 (C01, proved) + linearity of the period integral; the final integration step is checked numerically by integrating the Jacobian of the returned position vector"])
 
 PROPS['C12'] = dict(
@@ -259,7 +262,7 @@ PROPS['C12'] = dict(
 
 PROPS['C13'] = dict(
     lean=['QscProofs.C13', 'QscProofs.C03'], theorems=thms('QscProofs.C13') + ['C03.untwist_h0', 'C03.untwist_same_surface_1'], gen=['R1d', 'R2', 'R3', 'BmagCyl', 'BmagBoozer'],
-    corr=corr_merge(corr_generated(['R1d', 'BmagCyl', 'BmagBoozer']), corr_hand_kernels(['helicity'])), oracle=lambda ctx: (lambda st: (oracles.oracle_C13(ctx.all_orders(), st), oracles.oracle_C13_synthetic(st, ctx.seed, 60 if ctx.thorough else 15), st.out())[-1])(oracles.Stats()),
+    corr=corr_merge(corr_generated(['R1d', 'BmagCyl', 'BmagBoozer']), corr_hand_kernels(['helicity'])), oracle=lambda ctx: (lambda st: (oracles.oracle_C13(ctx.all_orders(), st), oracles.oracle_C13_signs(st, ctx.thorough), oracles.oracle_C13_synthetic(st, ctx.seed, 60 if ctx.thorough else 15), oracles.oracle_history(ctx.all_orders()[::3], st, seed=ctx.seed), st.out())[-1])(oracles.Stats()),
     rule=RULE, partial=['the cubic-spline interpolants (nu_spline, B20_spline) are parameters with the contract stated in C13.Bmag_agree; "helicity = winding number" needs the grid to resolve the rotation (consecutive quadrants differ by at most one step): explicit hypothesis of C13.counter_winding'])
 
 PROPS['C14'] = dict(
